@@ -120,10 +120,10 @@ func (e *Env) fail(assert, class, detail string, c any) {
 	e.emit(map[string]any{"assert": assert, "class": class, "detail": detail, "case": c})
 }
 
-// tooManyFailures: once a few hundred cases have failed the verdict is known; the remaining cases are
+// tooManyFailures: once more than a hundred cases have failed the verdict is known; the remaining cases are
 // skipped (hanging cases cost their whole patience each).  The summary line says so.
 func (e *Env) tooManyFailures() bool {
-	if atomic.LoadInt64(&e.failed) > 300 {
+	if atomic.LoadInt64(&e.failed) > 120 {
 		atomic.StoreInt64(&e.skipped, 1)
 		return true
 	}
